@@ -28,6 +28,7 @@ package table
 //@   requires m != nil
 //@   ensures err == nil ==> validCmdBytes(dAtA) == cmdValid(m)
 //@   ensures err == nil ==> batchLen(dAtA) == len(m.Batch) && fresh(dAtA)
+//@   ensures err == nil ==> cmdKind(dAtA) == m.Type && hasLI(dAtA) == (m.LeaderIndex != nil) && (m.LeaderIndex != nil ==> liVal(dAtA) == *m.LeaderIndex)
 //@   modifies nothing
 
 // the Raft node host behind a table: ghost counters of proposals and reads; only commands that
@@ -124,11 +125,16 @@ package table
 //@ ghostfield any.wPrevHas map[string]Bool
 //@ ghostfield any.wPrev map[string]kv.Pair
 
+// the name a record key stands for ("/tables/<name>" -> <name>)
+//@ uninterp func recName(key string) string
+//@ axiom forall n string :: recName("/tables/" + n) == n
 //@ iface table.store.Get
 //@   assumed
 //@   params s, key
 //@   results p, err
 //@   ensures s.rHas[key] == (err == nil)
+// catalogue well-formedness (ASSUMED of the store's content): the record under a table's key carries that table's name
+//@   ensures err == nil && key == "/tables/" + recName(key) && noSlash(recName(key)) ==> tableOf(bytesOf(p.Value)).Name == recName(key)
 //@   ensures err == nil ==> s.rPair[key] == p && p.Ver > 0 && p.Key == key
 //@   ensures err != nil ==> p == kv.Pair{}
 //@   ensures forall k string :: k != key ==> s.rHas[k] == old(s.rHas[k]) && s.rPair[k] == old(s.rPair[k])
@@ -350,6 +356,7 @@ package table
 //@   requires m != nil && m.store != nil
 //@   ensures [C14.get] err == nil ==> m.store.rHas[tkey(name)] && ver == m.store.rPair[tkey(name)].Ver && tab == tableOf(bytesOf(m.store.rPair[tkey(name)].Value))
 //@   ensures [C14.get.notfound] !m.store.rHas[tkey(name)] ==> err != nil
+//@   ensures [C14.get.name] err == nil && noSlash(name) ==> tab.Name == name
 //@   ensures forall k string :: k != tkey(name) ==> m.store.rHas[k] == old(m.store.rHas[k]) && m.store.rPair[k] == old(m.store.rPair[k])
 //@   modifies m.store.rHas, m.store.rPair
 
@@ -541,7 +548,7 @@ package table
 //@ func (*Manager).readIntoTable$1
 //@   results err
 //@   requires *m != nil && (*m).nh != nil && (*m).log != nil
-//@   ensures err == nil ==> (*m).nh.nelem == old((*m).nh.nelem) + batchLen(*bb)
+//@   ensures err == nil ==> (*m).nh.nelem == old((*m).nh.nelem) + batchLen(*bb) && (*m).nh.lastCmd == *bb
 //@   ensures err != nil ==> (*m).nh.nelem == old((*m).nh.nelem)
 //@   modifies (*m).nh.lastRes, (*m).nh.lastErr, (*m).nh.lastCmd, (*m).nh.nelem
 
@@ -560,3 +567,26 @@ package table
 //@   loop 0 invariant [C07.all.count] reader.nrec - old(reader.nrec) == m.nh.nelem - old(m.nh.nelem) + len(batchCmd.Batch)
 //@   loop 0 invariant [C07.nonil] forall j int :: 0 <= j && j < len(batchCmd.Batch) ==> batchCmd.Batch[j] != nil
 //@   loop 0 invariant isNilSlice(batchCmd.Batch) || fresh(batchCmd.Batch)
+// the leader index of the message read last is either pending in the batch command or was carried by
+// the proposal just made (so the index of the final DUMMY message always reaches the table)
+//@   loop 0 invariant [C07.li.track] batchCmd.LeaderIndex == cmd.LeaderIndex || (batchCmd.LeaderIndex == nil && hasLI(m.nh.lastCmd) == (cmd.LeaderIndex != nil) && (cmd.LeaderIndex != nil ==> liVal(m.nh.lastCmd) == *cmd.LeaderIndex))
+
+//@ func (*Manager).waitForLeader
+//@   assumed
+//@   requires m != nil
+//@   modifies nothing
+
+// Restore: the stream is loaded into a shard with a fresh id drawn from the id sequence (never the
+// shard the table currently points at), and only after the load succeeded is the table switched to
+// that shard - by a compare-and-set on the version of the record read after the load, writing
+// (cluster id = the fresh id, recover id = 0). Nothing of the old content can survive: the new shard
+// id was never used before (C14), so its data directory (keyed by name and id) starts empty.
+//@ func (*Manager).Restore
+//@   params m, name, reader
+//@   results err
+//@   requires m != nil && m.store != nil && m.nh != nil && m.log != nil && reader != nil
+//@   use keySpace(name, name)
+//@   before (*Manager).readIntoTable assert [C07.switch.fresh] id == recoveryID && recoveryID == parseU(m.store.wVal[seqKey]) && m.store.nwk[seqKey] == old(m.store.nwk[seqKey]) + 1
+//@   ensures [C07.switch.cas] err == nil ==> noSlash(name) && !m.store.wDel[tkey(name)] && m.store.wVer[tkey(name)] == m.store.rPair[tkey(name)].Ver && m.store.rHas[tkey(name)] && tableOf(bytesOf(m.store.wVal[tkey(name)])).ClusterID == parseU(m.store.wVal[seqKey]) && tableOf(bytesOf(m.store.wVal[tkey(name)])).RecoverID == 0 && tableOf(bytesOf(m.store.wVal[tkey(name)])).Name == tableOf(bytesOf(m.store.rPair[tkey(name)].Value)).Name
+//@   ensures [C07.switch.all] err == nil ==> m.nh.nelem - old(m.nh.nelem) == reader.nrec - old(reader.nrec)
+//@   modifies m.store.rHas, m.store.rPair, m.store.nwk, m.store.wVal, m.store.wVer, m.store.wDel, m.store.wPrevHas, m.store.wPrev, reader.nrec, m.nh.lastRes, m.nh.lastErr, m.nh.lastCmd, m.nh.nelem
